@@ -227,7 +227,9 @@ impl Leaf {
         Ok(Leaf {
             parent,
             parent_idx,
-            len,
+            // a node holds at most 2 * B - 1 items, a greater value means that this memory is
+            // not a b-tree node: do not index the key and value arrays beyond their capacity
+            len: len.min((2 * B - 1) as u16),
             keys_debugee_location: keys_data.address,
             keys_raw: keys_data.raw_data.to_vec(),
             vals_debugee_location: vals_data.address,
